@@ -44,9 +44,10 @@ def main():
     ap.add_argument("--budget", type=float, default=25)
     ap.add_argument("--tier", default="quick")
     ap.add_argument("--skip-verify", action="store_true")
+    ap.add_argument("--benign", action="store_true", help="property-preserving change: kept under /verif/benign/<id>/, every check must stay silent")
     a = ap.parse_args()
     wt = a.worktree
-    dst = os.path.join(VERIF, "seeded", a.id)
+    dst = os.path.join(VERIF, "benign" if a.benign else "seeded", a.id)
     os.makedirs(dst, exist_ok=True)
     have_wt = os.path.isdir(wt)
     meta = dict(id=a.id, property=a.prop)
@@ -74,21 +75,25 @@ def main():
         # the demo test itself is expected to fail; every baseline test must still pass
         missing = sorted(n for n in names if n not in with_p)
         meta["baseline_with_change"] = dict(passed=len(names) - len(missing), of=len(names), missing=missing)
-        rc1, out1 = sh("go test -vet=off -count=1 -run '^TestSeededDemo$' . 2>&1 | tail -40", wt, timeout=900)
-        demo_fails_with = "FAIL" in out1 and "ok  " not in out1.splitlines()[-1]
-        # revert / re-apply with the patch itself (git stash is shared between worktrees)
-        rcr, outr = sh("git apply -R seeded.patch", wt)
-        rc2, out2 = sh("go test -vet=off -count=1 -run '^TestSeededDemo$' . 2>&1 | tail -15", wt, timeout=900)
-        if rcr == 0:
-            sh("git apply seeded.patch", wt)
+        if a.benign:
+            meta["confirmed"] = bool(meta["builds"] and not missing)
+            print("verify (benign): builds=%s baseline_missing=%s" % (meta["builds"], missing))
         else:
-            out2 = "could not revert the patch: " + outr
-        demo_passes_without = bool(re.search(r"^ok\s", out2, re.M))
-        meta["demo"] = dict(fails_with_change=demo_fails_with, passes_without_change=demo_passes_without,
-                            output_with=out1[-1500:], output_without=out2[-400:])
-        ok = meta["builds"] and not missing and demo_fails_with and demo_passes_without
-        meta["confirmed"] = ok
-        print("verify: builds=%s baseline_missing=%s demo_fails_with=%s demo_passes_without=%s" % (meta["builds"], missing, demo_fails_with, demo_passes_without))
+            rc1, out1 = sh("go test -vet=off -count=1 -run '^TestSeededDemo$' . 2>&1 | tail -40", wt, timeout=900)
+            demo_fails_with = "FAIL" in out1 and "ok  " not in out1.splitlines()[-1]
+            # revert / re-apply with the patch itself (git stash is shared between worktrees)
+            rcr, outr = sh("git apply -R seeded.patch", wt)
+            rc2, out2 = sh("go test -vet=off -count=1 -run '^TestSeededDemo$' . 2>&1 | tail -15", wt, timeout=900)
+            if rcr == 0:
+                sh("git apply seeded.patch", wt)
+            else:
+                out2 = "could not revert the patch: " + outr
+            demo_passes_without = bool(re.search(r"^ok\s", out2, re.M))
+            meta["demo"] = dict(fails_with_change=demo_fails_with, passes_without_change=demo_passes_without,
+                                output_with=out1[-1500:], output_without=out2[-400:])
+            ok = meta["builds"] and not missing and demo_fails_with and demo_passes_without
+            meta["confirmed"] = ok
+            print("verify: builds=%s baseline_missing=%s demo_fails_with=%s demo_passes_without=%s" % (meta["builds"], missing, demo_fails_with, demo_passes_without))
     if have_wt:
         shutil.copyfile(patch, os.path.join(dst, "patch.diff"))
     if os.path.exists(demo):
@@ -137,6 +142,9 @@ def main():
             pass
     meta["checks"] = results
     meta["caught_by"] = sorted(p for p, r in results.items() if r.get("exit") == 1)
+    if a.benign:
+        meta["alarms"] = meta.pop("caught_by")
+        meta["trouble"] = sorted(p for p, r in results.items() if r.get("exit") not in (0, 1))
     meta["ran"] = "tools/seed_intake.py %s (scratch copy of /repo + patch.diff, VERIF_REPO/VERIF_OUT; ./check run <prop> --tier %s --budget %s)" % (a.id, a.tier, a.budget)
     meta["at"] = time.strftime("%Y-%m-%dT%H:%M:%SZ", time.gmtime())
     old = {}
